@@ -411,8 +411,14 @@ VERUS.append(dict(
         dict(name="outer_gap_row_gets_build_index", item="append_probe_indices_in_order", find="new_probe_indices.append_value(value);\n            new_build_indices.append_null();", replace="new_probe_indices.append_value(value);\n            new_build_indices.append_value(*build_index);"),
     ],
 ))
-KANI = []
-TRUSTED = ["Verus 0.2026.09.13 + bundled Z3", "global size_of usize == 8",
+KANI = [dict(package="datafusion-common", module="common/utils.rs", timeout=900, harnesses=[
+    dict(name="c05_join_type_algebra", complete=True,
+         what="JoinType::{swap, supports_swap, is_outer, empty_build_side_produces_empty_result, empty_map_produces_empty_result} for all ten join types against the nested-loop definition on inputs of at most one row per side (presence of each row and the match flag symbolic): swap == join of the exchanged inputs, involution, soundness of the emptiness claims, NULL padding only in outer joins"),
+    dict(name="c05_join_type_emptiness_claims_are_exact", complete=True,
+         what="the emptiness claims and is_outer are exact (a join type for which the claim is false can produce such a row)"),
+])]
+TRUSTED = ["Kani/CBMC; the nested-loop definition of the ten join types on at most one row per side is written in the harness (kani/common/utils.rs) and is the specification, not a model of the code",
+           "Verus 0.2026.09.13 + bundled Z3", "global size_of usize == 8",
            "ASSUMED view of an Arrow PrimitiveArray as Seq<Option<u64>> (len / null_count / is_null / value_unchecked+as_ / iter) in prelude.rs",
            "rewrites R1 (reverse enumerate loop -> descending while loop), R3 (generic key type T abstracted: the u64 image of the key; type-dispatch macro replaced by the direct call), R6, R9, R13, R18 (continue elimination), G1 (ghost parameter naming the build column)",
            "traverse_chain contract re-proved in this unit (u32, reversed insertion)"]
